@@ -79,6 +79,20 @@ def hygiene():
     return bad
 
 
+def write_coqproject():
+    """_CoqProject lists every theories/**/*.v (generated, so that adding a file needs no shared edit)"""
+    files = []
+    for root, _d, fns in os.walk(os.path.join(COQ, 'theories')):
+        for fn in fns:
+            if fn.endswith('.v'):
+                files.append(os.path.relpath(os.path.join(root, fn), COQ))
+    text = '-Q theories RBQL\n' + '\n'.join(sorted(files)) + '\n'
+    p = os.path.join(COQ, '_CoqProject')
+    if not os.path.exists(p) or open(p).read() != text:
+        with open(p, 'w') as f:
+            f.write(text)
+
+
 def build(clean=False):
     """Full (incremental) .vo build + extraction + OCaml binary. Returns (ok, log)."""
     lock = _lock()
@@ -89,6 +103,7 @@ def build(clean=False):
             return False, 'hygiene check failed:\n' + '\n'.join(bad)
         if clean:
             sh(['bash', '-c', 'cd %s && [ -f Makefile ] && make clean >/dev/null 2>&1; rm -f Makefile Makefile.conf .*.d model.ml model.mli' % COQ])
+        write_coqproject()
         rc, out = sh(['bash', '-c', 'cd %s && coq_makefile -f _CoqProject -o Makefile > /dev/null && ulimit -s unlimited; timeout 3000 make -j%d 2>&1' % (COQ, NCPU)], timeout=3100)
         log.append(out[-4000:])
         if rc != 0:
